@@ -4,13 +4,17 @@
 EXTENDS EncChainContract
 CONSTANT Depth2, Depth3     \* how many depth-2 / depth-3 combinations (booleans: include them?)
 VARIABLE row
-Marks == {"none", "bom", "cs:iso-8859-5", "cs:koi8-r"}
+\* bom16: the UTF-16 little-endian byte-order mark in front of a first character whose low byte is zero
+Marks == {"none", "bom", "bom16", "cs:iso-8859-5", "cs:koi8-r"}
 Nodes == {[http |-> h, mark |-> m, text |-> t, fetch |-> f] :
              h \in {"none", "iso-8859-1", "koi8-r"}, m \in Marks, t \in BOOLEAN, f \in {"data", "none", "nonepair"}}
 \* (a BOM in bytes that the transport declares to be something else: the transport charset still wins; such nodes are last in their chain)
 Sensible(n, override) == /\ (n.mark = "bom" => override = "none" /\ ~n.text)
+                         /\ (n.mark = "bom16" => override = "none" /\ ~n.text /\ n.http = "none")
                          /\ (n.fetch # "data" => n.http = "none" /\ n.mark = "none" /\ ~n.text)
+\* upper:x - the root starts with '@CHARSET "x";': not written exactly, so it is no @charset rule at all
 Roots == {[override |-> o, mark |-> m, text |-> t] : o \in {"none", "iso-8859-5"}, m \in {"none", "cs:koi8-r", "cs:iso-8859-1"}, t \in BOOLEAN}
+         \cup {[override |-> "none", mark |-> "upper:iso-8859-1", text |-> t] : t \in BOOLEAN}
 \* (first levels of longer chains; delivered as bytes or as text - a text whose @charset disagrees with its transport charset included)
 SmallNodes == {n \in Nodes : n.http \in {"none", "koi8-r"} /\ n.mark \in {"none", "cs:iso-8859-5"} /\ (n.text => n.fetch = "data")}
 OkNodes(r) == {x \in Nodes : Sensible(x, r.override)}
